@@ -15,14 +15,14 @@ use std::sync::Arc;
 
 const TAG: u64 = 0xC16;
 
-fn allowed_cpus() -> Vec<usize> {
+pub fn allowed_cpus() -> Vec<usize> {
     unsafe {
         let mut set: libc::cpu_set_t = std::mem::zeroed();
         if libc::sched_getaffinity(0, std::mem::size_of::<libc::cpu_set_t>(), &mut set) != 0 { return vec![]; }
         (0..libc::CPU_SETSIZE as usize).filter(|&c| libc::CPU_ISSET(c, &set)).collect()
     }
 }
-fn pin_to(cpus: &[usize]) -> bool {
+pub fn pin_to(cpus: &[usize]) -> bool {
     unsafe {
         let mut set: libc::cpu_set_t = std::mem::zeroed();
         for &c in cpus { libc::CPU_SET(c, &mut set); }
@@ -108,7 +108,7 @@ fn one_config(st: &mut Stats, rng: &mut Rng, k: usize, len: usize, delays: bool,
         let (va, vb) = (Vector::create(a.clone()), Vector::create(b.clone()));
         let desc = || format!("workers={} len={} data={} delays={}", k, len, name, delays);
         let seq = match catch(|| va.dot(&vb)) { Outcome::Ok(x) => x, o => { st.violation("C16:dot:panic", format!("{}; {}", o.describe(), desc())); continue; } };
-        let reps = 2;
+        let reps = if len >= (1 << 22) { 4 } else { 2 };
         let mut first: Option<u64> = None;
         for r in 0..reps {
             if delays { verif::set_dot_delays((0..k).map(|_| if rng.chance(0.5) { rng.below(120) } else { 0 }).collect()); } else { verif::set_dot_delays(vec![]); }
@@ -260,12 +260,24 @@ pub fn run(ctx: &Ctx) -> Report {
     let nblocks = (201 + block - 1) / block;
     let exhaustive_units = (kmax * nblocks * 2) as u64; // x2: without / with injected delays
     let random_units = ctx.vol(24, 2000);
+    // very long vectors (2^22 .. 2^23 elements: dynamic load balancing / work stealing is only worth it there), two worker counts
+    let long_lens: Vec<(usize, usize)> = { let mut v = vec![]; for k in [2usize, kmax.max(2)] { for len in [1usize << 22, (1 << 22) + 1, (1 << 23) - 1] { v.push((k.min(kmax.max(1)), len)); } } if ctx.quick() { v.truncate(4); } v };
+    let long_units = if kmax >= 2 { long_lens.len() as u64 } else { 0 };
     let affinity_fail = std::sync::atomic::AtomicUsize::new(0);
     let mut ctx2 = ctx.clone();
     ctx2.threads = ctx.threads.min(8); // each monitor thread spawns up to 16 workers per call
     // two background threads alternating ~1 ms of spinning with ~1 ms of sleep (unpinned): OS-level scheduling pressure
     for _ in 0..2 { let s = stop.clone(); spinners.push(std::thread::spawn(move || { let mut x = 0u64; while !s.load(Ordering::Relaxed) { let t = std::time::Instant::now(); while t.elapsed().as_micros() < 1000 { for _ in 0..1000 { x = x.wrapping_mul(6364136223846793005).wrapping_add(1); } } if x == 42 { std::thread::yield_now(); } std::thread::sleep(std::time::Duration::from_millis(1)); } })); }
-    let stats = par_run(&ctx2, TAG, exhaustive_units + random_units, |u, rng, st| {
+    let stats = par_run(&ctx2, TAG, exhaustive_units + random_units + long_units, |u, rng, st| {
+        if u >= exhaustive_units + random_units {
+            let (k, len) = long_lens[(u - exhaustive_units - random_units) as usize];
+            let window: Vec<usize> = (0..k).map(|i| cpus[i % cpus.len()]).collect();
+            if !pin_to(&window) || num_cpus_now() != k { st.count("skipped:affinity-not-effective"); return; }
+            one_config(st, rng, k, len, false, Some(2)); // general floats, three calls compared bit for bit
+            one_config(st, rng, k, len, false, Some(0)); // exact integer products
+            st.count("very-long-vector-configs");
+            return;
+        }
         let (k, lens, delays): (usize, Vec<usize>, bool) = if u < exhaustive_units {
             let v = u as usize;
             let delays = v % 2 == 1;
